@@ -544,8 +544,22 @@ impl<'p> Interp<'p> {
 				let equal = V::Enum("Ordering".into(), "Equal".into(), vec![]);
 				let (less, greater, equal) = if name == "partial_cmp" { (self.mk_some(less), self.mk_some(greater), self.mk_some(equal)) } else { (less, greater, equal) };
 				if name == "total_cmp" && self.mode == Mode::Fp {
-					// total order distinguishes -0 < +0: not used by the crate; report rather than guess
-					return unsup("total_cmp in fp mode");
+					// IEEE total order on finite non-NaN values: numeric order, and -0 < +0
+					let (_, zb) = self.fl_parts(b);
+					let zero = self.tm.real_i(0);
+					let isz0 = self.tm.eq(r, zero);
+					let same = self.tm.eq(r, rb);
+					let isz = self.tm.and(isz0, same);
+					let nzb = self.tm.not(zb);
+					let nza = self.tm.not(z);
+					let a_neg_b_pos = self.tm.and(z, nzb);
+					let a_pos_b_neg = self.tm.and(nza, zb);
+					let zlt = self.tm.and(isz, a_neg_b_pos);
+					let zgt = self.tm.and(isz, a_pos_b_neg);
+					let lt2 = self.tm.or(lt, zlt);
+					let gt2 = self.tm.or(gt, zgt);
+					let inner = V::Ite(gt2, Rc::new(greater), Rc::new(equal));
+					return Ok(V::Ite(lt2, Rc::new(less), Rc::new(inner)));
 				}
 				let inner = V::Ite(gt, Rc::new(greater), Rc::new(equal));
 				let v = if self.tm.as_bool(lt) == Some(true) {
